@@ -273,6 +273,21 @@ func (t *tr) paramTypesOf(fs *FuncSpec) []types.Type {
 		}
 		return out
 	}
+	if strings.HasPrefix(fs.Key, "funcvalue:") {
+		ty := t.eng.typeByName(strings.TrimPrefix(fs.Key, "funcvalue:"), nil)
+		if ty == nil {
+			return nil
+		}
+		sig, ok := ty.Underlying().(*types.Signature)
+		if !ok {
+			return nil
+		}
+		var out []types.Type
+		for i := 0; i < sig.Params().Len(); i++ {
+			out = append(out, sig.Params().At(i).Type())
+		}
+		return out
+	}
 	f := t.eng.byName[fs.Key]
 	if f == nil {
 		return nil
@@ -588,6 +603,9 @@ func (t *tr) call(ins ssa.Instruction, cc *ssa.CallCommon, R string, heaps map[s
 		name, callee = t.globalFuncCallee(cc)
 	default:
 		name = "<dynamic>"
+		if k := funcValueKey(cc); k != "" && t.eng.specs.Funcs[k] != nil {
+			name = k
+		}
 		fv := t.v(cc.Value)
 		t.oblige("safe", t.nameAt("nilfunc", ins.Pos(), pickCallFun), R, fmt.Sprintf("(not (= %s 0))", fv), ins.Pos())
 	}
